@@ -282,6 +282,29 @@ func baselineCmd() {
 	b, _ := json.MarshalIndent(out, "", " ")
 	os.MkdirAll(filepath.Join(verifDir(), "baseline"), 0o755)
 	os.WriteFile(filepath.Join(verifDir(), "baseline", "obligations.json"), b, 0o644)
+	// named locals of the functions under contract (see renamedLocal)
+	locals := map[string][]localSig{}
+	for _, fc := range cs.Funcs {
+		if fc.IsIface || fc.Missing {
+			continue
+		}
+		if fn := ld.findFunc(fc.Pkg, fc.Key); fn != nil {
+			locals[fn.String()] = localSigs(fn)
+		}
+	}
+	loops := map[string][]string{}
+	for _, fc := range cs.Funcs {
+		if fc.IsIface || fc.Missing {
+			continue
+		}
+		if fn := ld.findFunc(fc.Pkg, fc.Key); fn != nil {
+			loops[fn.String()] = loopSigs(fn, analyzeLoops(fn))
+		}
+	}
+	lpb, _ := json.MarshalIndent(loops, "", " ")
+	os.WriteFile(filepath.Join(verifDir(), "baseline", "loops.json"), lpb, 0o644)
+	lb, _ := json.MarshalIndent(locals, "", " ")
+	os.WriteFile(filepath.Join(verifDir(), "baseline", "locals.json"), lb, 0o644)
 	for _, p := range sortedKeys(out) {
 		fmt.Printf("%s: %d baseline obligations\n", p, len(out[p]))
 	}
